@@ -4,6 +4,7 @@ import (
 	"bytes"
 	"context"
 	"fmt"
+	"golang.org/x/time/rate"
 	"io"
 	"net/http"
 	"net/http/httptest"
@@ -82,9 +83,9 @@ func datagramGen() *rapid.Generator[[]byte] {
 			dm := rapid.IntRange(-2, 2).Draw(t, "dm")
 			return []byte(fmt.Sprintf("_e{%d,%d}:%s|%s%s", len(title)+dn, len(text)+dm, title, text, rapid.SampledFrom([]string{"", "|", "|d:1", "|#a,b", "|p:low|t:error", "|x"}).Draw(t, "attrs")))
 		case 3: // very long line
-			n := rapid.SampledFrom([]int{1000, 8192, 65000, 65535}).Draw(t, "long")
-			fill := rapid.SampledFrom([]string{"a", "|", ":", ",", "#", "1", "\x00", "_e{1,1}:a|b|#"}).Draw(t, "fill")
-			s := "name:1|c|#" + strings.Repeat(fill, n/len(fill))
+			n := rapid.SampledFrom([]int{257, 300, 1000, 8192, 65000, 65535}).Draw(t, "long")
+			fill := rapid.SampledFrom([]string{"a", "|", ":", ",", "#", "1", "\x00", "_e{1,1}:a|b|#", "\x80", "\xbf\x80", "\xc3\xa9", "\xff"}).Draw(t, "fill")
+			s := rapid.SampledFrom([]string{"name:1|c|#", "name:1|c|#", "", "n", "_e{300,300}:"}).Draw(t, "long-prefix") + strings.Repeat(fill, n/len(fill))
 			if len(s) > 65535 {
 				s = s[:65535]
 			}
@@ -217,9 +218,16 @@ type parserRig struct {
 	badPrev float64
 }
 
+// parserOptions: bad-line logging (a rate limit > 0 enables it) and raw-metric logging are part of the parser's
+// configuration; both touch every line, so they are drawn per case.
+var (
+	badLineLogRate rate.Limit
+	logRawMetric   bool
+)
+
 func newRig(ns string, ignoreHost bool) *parserRig {
 	r := &parserRig{in: make(chan []*statsd.Datagram), sink: fakes.NewSink(), st: fakes.NewStatser(), panicCh: make(chan interface{}, 2)}
-	dp := statsd.NewDatagramParser(r.in, ns, ignoreHost, 0, r.sink, 0, false, logrus.StandardLogger())
+	dp := statsd.NewDatagramParser(r.in, ns, ignoreHost, 0, r.sink, badLineLogRate, logRawMetric, logrus.StandardLogger())
 	ctx, cancel := context.WithCancel(stats.NewContext(context.Background(), r.st))
 	r.cancel = cancel
 	go func() {
@@ -287,6 +295,8 @@ func TestParserAccounting(t *testing.T) {
 		d := datagramGen().Draw(t, "datagram")
 		ns := rapid.SampledFrom([]string{"", "ns"}).Draw(t, "ns")
 		ignoreHost := rapid.Bool().Draw(t, "ignore-host")
+		badLineLogRate = rate.Limit(rapid.SampledFrom([]float64{0, 0, 1e6, 0.001}).Draw(t, "bad-line-log-rate"))
+		logRawMetric = rapid.IntRange(0, 3).Draw(t, "log-raw-metric") == 0
 		r := newRig(ns, ignoreHost)
 		defer r.cancel()
 		doneCalled := 0
